@@ -33,6 +33,23 @@ type c16Scn struct {
 	M1QoS      int    `json:"qos_of_probe_on_old_filter"`
 	Admin      bool   `json:"admin_delete_at_end"`
 	Jitter     bool   `json:"jitter"`
+	// Kind "chain" only: a history of 3 or more connections of the one client id (see c16runChain)
+	Chain []c16Conn `json:"chain,omitempty"`
+}
+
+// c16Conn is one connection of a "chain" history.
+type c16Conn struct {
+	Clean bool `json:"clean_session"`
+	// how this connection is followed by the next one (unused for the last connection):
+	// "disconnect" / "drop": it ends (DISCONNECT packet / FIN through the relay) and its teardown
+	// has completed before the next CONNECT; "takeover": it is still open when the next CONNECT comes
+	Next string `json:"then,omitempty"`
+	// takeover only: where the superseded connection's end is placed relative to the steps of
+	// the connection that took over: 1 after its CONNACK, 2 after its SUBSCRIBE, 3 after its
+	// first judgement (it is judged again afterwards), 4 never (until the history has been judged)
+	Point int `json:"superseded_teardown_point,omitempty"`
+	// takeover only: "disconnect" (late DISCONNECT packet) or "drop" (device vanished, FIN later)
+	End string `json:"superseded_ends_by,omitempty"`
 }
 
 var c16pointName = []string{"before-connect", "after-connack", "after-subscribe", "after-delivery", "never", "keepalive-deadline"}
@@ -101,13 +118,76 @@ func c16scenarios() []c16Scn {
 	return out
 }
 
+// c16chains: every history of three connections {cleanSession}^3 x {disconnect, drop, takeover}^2.
+// Teardown points of superseded connections and an optional fourth connection are drawn per case.
+func c16chains() []c16Scn {
+	var out []c16Scn
+	bools := []bool{false, true}
+	nexts := []string{"disconnect", "drop", "takeover"}
+	for _, c0 := range bools {
+		for _, c1 := range bools {
+			for _, c2 := range bools {
+				for _, t01 := range nexts {
+					for _, t12 := range nexts {
+						out = append(out, c16Scn{Kind: "chain", Chain: []c16Conn{{Clean: c0, Next: t01}, {Clean: c1, Next: t12}, {Clean: c2}}})
+					}
+				}
+			}
+		}
+	}
+	return out
+}
+
+// c16chainDraw fills in what the enumeration leaves open.  extend: insert a fourth connection.
+func c16chainDraw(rng *rand.Rand, s c16Scn, extend bool) c16Scn {
+	ch := append([]c16Conn(nil), s.Chain...)
+	if extend {
+		at := rng.Intn(len(ch) + 1)
+		extra := c16Conn{Clean: rng.Intn(2) == 0, Next: []string{"disconnect", "drop", "takeover"}[rng.Intn(3)]}
+		ch = append(ch[:at], append([]c16Conn{extra}, ch[at:]...)...)
+	}
+	for k := range ch {
+		ch[k].Point, ch[k].End = 0, ""
+		if k == len(ch)-1 {
+			ch[k].Next = ""
+		} else if ch[k].Next == "" {
+			ch[k].Next = []string{"disconnect", "drop", "takeover"}[rng.Intn(3)]
+		}
+		if ch[k].Next == "takeover" {
+			ch[k].Point = 1 + rng.Intn(4)
+			ch[k].End = []string{"disconnect", "drop"}[rng.Intn(2)]
+		}
+	}
+	s.Chain = ch
+	return s
+}
+
+// c16chainShape names the history up to and including connection k, limited to the last three
+// connections: e.g. "c-takeover-p-drop-p" (c = cleanSession=true, p = cleanSession=false).
+func c16chainShape(ch []c16Conn, k int) string {
+	from := k - 2
+	if from < 0 {
+		from = 0
+	}
+	var sb strings.Builder
+	for i := from; i <= k; i++ {
+		sb.WriteString(c16cp(ch[i].Clean))
+		if i < k {
+			sb.WriteString("-" + ch[i].Next + "-")
+		}
+	}
+	return sb.String()
+}
+
 func TestVerif_C16_Sessions(t *testing.T) {
 	c15rigSkipForReplay(t)
 	r := kit.Start(t, "C16")
 	defer r.Finish()
 	scns := c16scenarios()
-	r.Rule(fmt.Sprintf("%d scripted schedules for one client id: {cleanSession old} x {cleanSession new} x {new filter = old filter or not} x {plain reconnect after DISCONNECT / after a silent drop; takeover with the old connection's end (FIN through the relay, or DISCONNECT packet) placed after the new CONNACK / after the new SUBSCRIBE / after the first delivery / never; takeover with the old connection ended by the broker's keep-alive deadline; admin delete; session-delete watch event delayed past the reconnect}; repeated (quick 3x, thorough 200x) with seeded jitter between the steps and a random QoS for the probe on the old filter; after the old teardown has completed a fresh message per filter is published; distinct = (schedule, symptoms)", len(scns)))
-	r.Assume("one client id, keepalive 0 except in the keep-alive schedules, no will; delete-watch events are delivered promptly (right after the teardown that caused them, before the next step) except in the stale-delete-event schedules; old cleanSession=true followed by new cleanSession=false: whether the old subscription comes back is left open (counted, not judged); new cleanSession=true while the superseded connection has not been torn down yet: delivery on the old filter is counted, not judged")
+	nPair := len(scns)
+	scns = append(scns, c16chains()...)
+	r.Rule(fmt.Sprintf("%d scripted schedules for one client id. (a) %d two-connection schedules: {cleanSession old} x {cleanSession new} x {new filter = old filter or not} x {plain reconnect after DISCONNECT / after a silent drop; takeover with the old connection's end (FIN through the relay, or DISCONNECT packet) placed after the new CONNACK / after the new SUBSCRIBE / after the first delivery / never; takeover with the old connection ended by the broker's keep-alive deadline; admin delete; session-delete watch event delayed past the reconnect}, a random QoS for the probe on the old filter; after the old teardown has completed a fresh message per filter is published. (b) %d longer session histories (chains): every sequence of three connections {cleanSession}^3 x {ends by DISCONNECT, ends by silent drop, is taken over while open}^2, each connection subscribing a filter of its own; the end of a superseded connection is placed at a drawn point (after the successor's CONNACK / SUBSCRIBE / first judgement / never) and always before the successor itself ends; in the repeats a fourth connection with drawn parameters is inserted at a drawn position in half of the cases; EVERY connection of a chain is judged (books + one fresh message per filter of the history, PINGRESP barrier) against a model of the property sentence: cleanSession=true discards everything earlier, cleanSession=false keeps what the previous session held and what the connection subscribed itself, filters held by a cleanSession=true predecessor of a cleanSession=false connection are left open. All repeated (quick 3x, thorough 200x) with seeded jitter between the steps; distinct = (schedule, symptoms)", len(scns), nPair, len(scns)-nPair))
+	r.Assume("one client id, keepalive 0 except in the keep-alive schedules, no will; delete-watch events are delivered promptly (right after the teardown that caused them, before the next step) except in the stale-delete-event schedules; old cleanSession=true followed by new cleanSession=false: whether the old subscription comes back is left open (counted, not judged); new cleanSession=true while the superseded connection has not been torn down yet: delivery on the old filter is counted, not judged; chains: a connection ends only after every Session.store() hand-over has finished, a superseded connection is torn down before its successor ends or not at all until the history has been judged; a discarded filter must stay silent only once every earlier connection has been torn down")
 	reps := r.N(3, 200)
 	n := len(scns) * reps
 	for i := 0; i < n; i++ {
@@ -117,6 +197,12 @@ func TestVerif_C16_Sessions(t *testing.T) {
 		rng := r.CaseRand(i)
 		s := scns[i%len(scns)]
 		s.Jitter = i >= len(scns)
+		if s.Kind == "chain" {
+			s = c16chainDraw(rng, s, s.Jitter && rng.Intn(2) == 0)
+			r.Case(i, s)
+			c16runChain(r, rng, s, i < len(scns))
+			continue
+		}
 		s.M1QoS = rng.Intn(2)
 		if s.Kind == "takeover" || s.Kind == "reconnect" {
 			s.Admin = rng.Intn(4) == 0
@@ -132,6 +218,14 @@ func TestVerif_C16_Sessions(t *testing.T) {
 	r.Require("clean_session_old_filter_silent", 1)
 	r.Require("admin_delete_disconnected_client", 1)
 	r.Require("keepalive_teardown_observed", 1)
+	// chains: the monitor must have judged reconnects deep in a history, for every kind of clause
+	r.Require("chain_connections_judged", 1)
+	r.Require("chain_third_or_later_connection_judged", 1)
+	r.Require("chain_earlier_subscription_restored_at_third_or_later_connection", 1)
+	r.Require("chain_subscription_of_a_connection_that_took_over_restored_after_its_own_end", 1)
+	r.Require("chain_subscription_made_after_a_clean_predecessor_restored_at_next_persistent_reconnect", 1)
+	r.Require("chain_discarded_filter_silent", 1)
+	r.Require("chain_superseded_teardown_observed_complete", 1)
 }
 
 func c16run(r *kit.Run, rng *rand.Rand, s c16Scn, first bool) {
